@@ -17,7 +17,13 @@ def one(patch):
             return patch, {"error": [(r.stderr + r.stdout)[-300:]]}
         out = {}
         env = dict(os.environ, PV_NO_EVIDENCE="1")
-        for p in PROPS:
+        props = PROPS
+        if os.environ.get("PV_PROBE_FOCUS"):
+            # quick pass: the patch's own property, its file-sharing neighbours and the two crate-wide PANIC properties
+            own = os.path.basename(os.path.dirname(patch)).split("-")[0]
+            nb = {"C01": ["C12", "C15"], "C02": ["C03"], "C03": ["C04", "C02"], "C04": ["C03"], "C10": ["C12"], "C12": ["C10", "C01"], "C15": ["C01"], "C06": ["C07"], "C07": ["C06"], "C05": ["C08"], "C08": ["C05"]}
+            props = sorted({own, "C17", "C18", *nb.get(own, [])} & set(PROPS))
+        for p in props:
             c = subprocess.run([os.path.join(V, "check"), p, "--repo", d], capture_output=True, text=True, env=env, cwd=V)
             reps = [l for l in c.stdout.splitlines() if l.startswith("REPORT ")]
             if c.returncode != 0 or reps:
